@@ -24,6 +24,7 @@ including those from Python 1.x and 2.x.
 import collections
 import inspect
 import sys
+import types
 from io import StringIO
 from linecache import getline
 from types import CodeType
@@ -40,7 +41,7 @@ from xdis.cross_types import UnicodeForPython3
 from xdis.instruction import Instruction
 from xdis.op_imports import get_opcode_module
 from xdis.opcodes.opcode_36 import format_CALL_FUNCTION, format_CALL_FUNCTION_EX
-from xdis.util import code2num, num2code
+from xdis.util import better_repr, code2num, num2code
 from xdis.version_info import IS_PYPY
 
 VARIANT = "pypy" if IS_PYPY else None
@@ -76,6 +77,8 @@ def get_const_info(const_index, const_list):
     arg_repr = (
         prefer_double_quote(repr(arg_val))
         if isinstance(arg_val, str)
+        else better_repr(arg_val)
+        if isinstance(arg_val, types.CodeType)
         else repr(arg_val)
     )
 
